@@ -1,9 +1,11 @@
 import VModel.Tantivy
+import VModel.Examples
 import VProofs.C01
 import VProofs.C15
 import VProofs.Lemmas.TkNorm
 import VProofs.Lemmas.TkOffsets
 import VProofs.Lemmas.TkPipeline
+import VProofs.Lemmas.Examples
 /-!
 # C16 — Normalisation keeps character positions; search tokens tile the original text
 
@@ -122,5 +124,76 @@ example : (match Predictor.new {} C16_exModel false, buildPostFilters "DG".toLis
     | _, _ => .ok []) = .ok [⟨0, 2, 0, ['a', '\x00']⟩] := by decide +kernel
 
 example : (match buildPostFilters "DX".toList [] with | .err _ => true | _ => false) = true := by decide
+
+/-! ## the browser example (examples/wasm/src/lib.rs) -/
+
+/-- the worker keeps two sentence objects between messages and reuses them (`update_raw`); what they held before is
+invisible: the answer to a message (tokens, tag count, or the panic) is the answer of a freshly created worker -/
+theorem C16_wasm_reuse_invisible (p : Predictor) (cl : List Nat) (w : WasmWorker) (msg : List Char) :
+    (wasmReceived p cl w msg).map (·.2) = (wasmReceived p cl {} msg).map (·.2) :=
+  ExL.wasm_reuse p cl w msg
+
+/-- for a well-formed model (and tag models) the worker never panics on a non-empty NUL-free message, whatever state it is
+in and for every segmentation of the message into grapheme clusters: it answers with one token per token of the library
+pipeline (`from_raw`, predict, grapheme filter, digit filter, `fill_tags`) run on the NORMALISED text, each carrying the
+ORIGINAL characters of its span and the pipeline's tags (an absent tag is sent as the empty string), together with the
+pipeline's tag count; the surfaces concatenate to the original message -/
+theorem C16_wasm_answer (m : WModel) (hm : WFModel m) (ht : WFTags m) (p : Predictor) (hp : wasmCreate m = .ok p)
+    (w : WasmWorker) (msg : List Char) (hne : msg ≠ []) (hnul : '\x00' ∉ msg) (cl : List Nat) (hpos : ∀ l ∈ cl, 1 ≤ l)
+    (hsum : cl.sum = msg.length) :
+    ∃ s w' toks,
+      (bindR (Sentence.fromRaw (Gen.fullwidth msg)) fun s0 => bindR (p.predict 0 s0) fun s1 =>
+        bindR (filterGraphemes cl s1) fun s2 => bindR (filterWsConst 1 s2) fun s3 => p.predictTags s3) = .ok s ∧
+      wasmReceived p cl w msg = .ok (w', toks, s.nTags) ∧
+      toks = (iterTokens s.bounds).map (fun se => ((msg.drop se.1).take (se.2 - se.1),
+        ((s.tags.drop ((se.2 - 1) * s.nTags)).take s.nTags).map (fun t => t.getD []))) ∧
+      (toks.map (·.1)).flatten = msg :=
+  ExL.wasm_answer wasmCfg m hm ht p hp w msg hne hnul cl hpos hsum
+
+/-- a non-empty message with a NUL character is rejected by `update_raw`, and the example unwraps the result: the worker
+panics (documented behaviour of the example, not of the library) -/
+theorem C16_wasm_rejected (p : Predictor) (cl : List Nat) (w : WasmWorker) (msg : List Char) (hne : msg ≠ [])
+    (hnul : '\x00' ∈ msg) : ∃ q, wasmReceived p cl w msg = .panic q :=
+  ExL.wasm_rejected p cl w msg hne hnul
+
+/-- the empty message is answered with no tokens before anything is touched -/
+theorem C16_wasm_empty (p : Predictor) (cl : List Nat) (w : WasmWorker) : wasmReceived p cl w [] = .ok (w, [], 0) :=
+  ExL.wasm_empty p cl w
+
+/-- `C16_exModel` with a tag model for the (normalised) token "ａ" -/
+def C16_exTagModel : WModel :=
+  { C16_exModel with
+    tagModels := [{ token := ['ａ'], tags := [[['x'], ['y']]], charNgrams := [⟨['ｂ', 'ａ'], [⟨0, [1, 2]⟩]⟩],
+                    typeNgrams := [⟨[2], [⟨1, [0, 1]⟩]⟩], bias := [0, 0] }] }
+
+example : WFModel C16_exTagModel :=
+  { charW_pos := by decide, charW_le := by decide, typeW_pos := by decide, typeW_le := by decide,
+    char_nodup := by decide, char_shape := by decide, type_nodup := by decide, type_shape := by decide,
+    dict_nodup := by decide, dict_shape := by decide }
+
+example : WFTags C16_exTagModel :=
+  { tokens_nodup := by decide, bias_len := by decide, char_ok := by decide, type_ok := by decide }
+
+example : (wasmCreate C16_exTagModel).isOk = true := by decide
+
+/-- (instance search gives up on the nested answer type without this stepping stone) -/
+local instance : DecidableEq (List WasmToken × Nat) := inferInstance
+
+/-- one worker, five messages: "aba" (the token "a" gets its tag from the model over the normalised alphabet, the surfaces
+are the original characters), the empty message, "ab 12" (the digit filter joins "12"), a message with NUL (the worker
+panics and the session ends there) -/
+example : (match wasmCreate C16_exTagModel with
+    | .ok p => wasmSession p {} ["aba".toList, [], "ab 12".toList, "a\x00".toList, "a".toList]
+        [[1, 1, 1], [], [1, 1, 1, 1, 1], [1, 1], [1]]
+    | _ => []) =
+    [.ok ([(['a'], [['y']]), (['b', 'a'], [[]])], 1), .ok ([], 0),
+     .ok ([(['a'], [['y']]), (['b', ' ', '1', '2'], [[]])], 1),
+     .panic "sentence_filtered.update_raw(filtered_text).unwrap()"] := by decide
+
+/-- the model of `C01.lean` (over the ASCII alphabet, which the normaliser maps away): two messages, one token each -/
+example : (match wasmCreate C01_exModel with
+    | .ok p => wasmSession p {} ["aba".toList, "ab 12".toList] [[1, 1, 1], [1, 1, 1, 1, 1]]
+    | _ => []) =
+    [.ok ([(['a', 'b', 'a'], [[]])], 1), .ok ([(['a', 'b', ' ', '1', '2'], [[]])], 1)] := by decide
 
 end V
